@@ -101,6 +101,14 @@ def run(tier, seed):
         # an edit history: re-analyse some files (same text) and in another order
         for p in r.rng.sample(ws.order, min(3, len(ws.order))):
             cases.op("analyze", p, tids[p])
+        # the scan visiting a file the editor has already opened (analyze_file_fresh after analyze_file): only
+        # files without definitions, where the scan's visit leaves nothing behind on the unchanged tree (C10-E9
+        # is about definitions)
+        nodefs = [p for p in ws.order if not getattr(ws.files[p], "defs", [1]) and p in tids]
+        if nodefs and r.rng.random() < 0.5:
+            p = r.rng.choice(nodefs)
+            cases.op("fresh", p, tids[p])
+            ws.meta["fresh_after_open"] = p
         emit(cases, ws)
         cases.q("dump")
         ndefs = sum(len(pf.defs) for pf in ws.files.values())
